@@ -206,7 +206,10 @@ def execute(scn, debug=False):
                     violations.append({
                         'clause': 'C17/roundtrip', 'detail': {'what': 'raised'},
                         'msg': 'reply #%d %r raised %s (variant %s)' % (
-                            out['exc'][0], scn['replies'][out['exc'][0]],
+                            out['exc'][0],
+                            scn['replies'][out['exc'][0]]
+                            if out['exc'][0] < len(scn['replies'])
+                            else 'the padding reply',
                             out['exc'][1], mode)})
                     break
                 for k, (code, msg, esc) in enumerate(sent):
